@@ -52,6 +52,7 @@ GFA2 = {
     "o2": ("O\to2\tA+ e1+ B+", ["e1"]),
     "o3": ("O\to3\to1+ C+", ["o1", "e6"]),
     "o4": ("O\to4\tB- e1- A-", ["e1"]),
+    "o5": ("O\to5\te1- e3+", ["e1", "e3"]),          # starts with a reversed edge
     "u1": ("U\tu1\tA B", ["sA", "sB"]),
     "u2": ("U\tu2\te1", ["e1"]),
     "u3": ("U\tu3\to1", ["o1"]),
